@@ -56,7 +56,11 @@ def run(facts, rep, tier):
     rep.rule('OB.3', 'every notify argument is the lvalue m_val (the post-operation value), never a saved copy or the parameter')
     rep.rule('OB.4', '++/--: write, then notify unconditionally exactly once on every path; prefix returns m_val, postfix the copy taken before')
     rep.rule('OB.5', 'sibling table: operator⊕= applies exactly ⊕= to the held value inside its closure, with the operand owned by the closure, and delegates to apply()')
-    rep.assume('arithmetic of T, the comparator and Subject::notify (C05) are trusted; an opaque callable handed T& may change the value')
+    rep.assume('arithmetic of T and the comparator are trusted; an opaque callable handed T& may change the value')
+    # "each subscriber exactly once" is Subject's part of the property (its anchors include Subject.h): one invocation per live id, ids
+    # never reused, list and id set change together
+    import observer
+    observer.emit(facts, rep, ['SUB.1', 'SUB.2', 'SUB.5', 'SUB.6'], {'SUB.1': 7, 'SUB.2': 14, 'SUB.5': 14, 'SUB.6': 14})
     classes = sorted(c for c in facts.classes if strip_targs(c) == OB)
     rep.floor('Observable instantiations', len(classes), 3)
     n_fn = 0
